@@ -39,6 +39,7 @@ type c17Cfg struct {
 type c17Batch struct {
 	n      int
 	items  map[string]string
+	deep   map[string]string
 	group  string // metadata values seen in the batch context
 	at     time.Time
 	parked bool
@@ -46,6 +47,7 @@ type c17Batch struct {
 
 type c17Item struct {
 	fp       string
+	deep     string // hash of the complete single-item form (gen.DeepItems)
 	group    string
 	accepted time.Time
 	inA      bool // its Consume had returned nil when shutdown began
@@ -112,6 +114,7 @@ func groupOf(keys []string, md map[string][]string) string {
 
 func (s *c17Sim) sink(ctx context.Context, payload any) error {
 	p := pd{sig: s.cfg.Signal}
+	deep := gen.DeepItems(payload)
 	var items map[string]string
 	switch s.cfg.Signal {
 	case sigLogs:
@@ -129,7 +132,7 @@ func (s *c17Sim) sink(ctx context.Context, payload any) error {
 	}
 	s.mu.Lock()
 	n := len(s.calls) + 1
-	b := &c17Batch{n: n, items: items, group: groupOf(s.cfg.Keys, md), at: time.Now()}
+	b := &c17Batch{n: n, items: items, deep: deep, group: groupOf(s.cfg.Keys, md), at: time.Now()}
 	plan := byte('o')
 	if n-1 < len(s.cfg.SinkPlan) {
 		plan = s.cfg.SinkPlan[n-1]
@@ -276,6 +279,10 @@ func runC17(r *simkit.Run) {
 					pr := pr
 					ch = append(ch, simkit.Choice{Name: fmt.Sprintf("offer:p%d", pr.id), W: 5, Fire: func() {
 						payload := p.gen(tp, s.ids)
+						if tp.Chance(1, 2) {
+							gen.Enrich(tp, payload, false) // every field of the data model travels through merge and split
+						}
+						deep := gen.DeepItems(payload)
 						md := map[string][]string{}
 						if len(cfg.Keys) > 0 {
 							md["tenant"] = [][]string{{"a"}, {"b"}, {"a", "b"}, nil}[tp.Draw(4)]
@@ -296,7 +303,7 @@ func runC17(r *simkit.Run) {
 						nreq++
 						pr.ids = pr.ids[:0]
 						for id, fp := range items {
-							s.items[id] = &c17Item{fp: fp, group: pr.grp, req: nreq}
+							s.items[id] = &c17Item{fp: fp, deep: deep[id], group: pr.grp, req: nreq}
 							pr.ids = append(pr.ids, id)
 						}
 						sort.Strings(pr.ids)
@@ -403,6 +410,8 @@ func (s *c17Sim) observe(ev string, timeout time.Duration) {
 			}
 			if it.fp != fp {
 				r.Failf("identity", cfg.Signal+":"+strings.Join(gen.DiffFields(it.fp, fp), "+"), "item %s changed context in batch %d: entered as %s, left as %s", id, b.n, it.fp, fp)
+			} else if it.deep != "" && b.deep[id] != it.deep {
+				r.Failf("identity", cfg.Signal+":content", "item %s left in batch %d with a content or context that differs from what entered (same resource/scope/schema/metric fingerprint; hash of the complete single-item form %s -> %s)", id, b.n, it.deep, b.deep[id])
 			}
 			if it.group != b.group {
 				r.Failf("metadata", "group-mixed-or-wrong-context", "item %s arrived with metadata %q but was sent in batch %d whose context carries %q", id, it.group, b.n, b.group)
